@@ -52,6 +52,27 @@ Theorem C07_from_zscore_fl_sd_zero : forall prec emax (Hp : Prec_gt_0 prec) (Hpe
   is_finite mean = true -> is_finite z = true -> B2R mean <> 0 -> from_zscore_fl prec emax Hp Hpe mean (B754_zero s) z = mean.
 Proof. exact from_zscore_fl_sd_zero_eq. Qed.
 
+(* the same shape serves Cauchy (cauchy.rs:113: median + scale * tan) and Frechet; Gumbel (gumbel.rs:100) subtracts: *)
+Theorem C07_affine_sub_fl_def : forall prec emax (Hp : Prec_gt_0 prec) (Hpe : Prec_lt_emax prec emax) (loc scale g : binary_float prec emax),
+  affine_sub_fl prec emax Hp Hpe loc scale g = Bminus mode_NE loc (Bmult mode_NE scale g).
+Proof. reflexivity. Qed.
+
+Theorem C07_affine_sub_fl_value : forall prec emax (Hp : Prec_gt_0 prec) (Hpe : Prec_lt_emax prec emax) (loc scale g : binary_float prec emax),
+  is_finite loc = true -> is_finite scale = true -> is_finite g = true ->
+  Rabs (rnd prec emax (B2R scale * B2R g)) < bpow radix2 emax ->
+  Rabs (rnd prec emax (B2R loc - rnd prec emax (B2R scale * B2R g))) < bpow radix2 emax ->
+  B2R (affine_sub_fl prec emax Hp Hpe loc scale g) = rnd prec emax (B2R loc - rnd prec emax (B2R scale * B2R g)) /\
+  is_finite (affine_sub_fl prec emax Hp Hpe loc scale g) = true.
+Proof. exact affine_sub_fl_value. Qed.
+
+Theorem C07_affine_sub_fl_error : forall prec emax (Hp : Prec_gt_0 prec) (Hpe : Prec_lt_emax prec emax) (loc scale g : binary_float prec emax),
+  is_finite loc = true -> is_finite scale = true -> is_finite g = true ->
+  Rabs (rnd prec emax (B2R scale * B2R g)) < bpow radix2 emax ->
+  Rabs (rnd prec emax (B2R loc - rnd prec emax (B2R scale * B2R g))) < bpow radix2 emax ->
+  Rabs (B2R (affine_sub_fl prec emax Hp Hpe loc scale g) - (B2R loc - B2R scale * B2R g)) <=
+    u prec * Rabs (B2R loc - B2R scale * B2R g) + u prec * (2 + u prec) * Rabs (B2R scale * B2R g) + (1 + u prec) * eta prec emax.
+Proof. exact affine_sub_fl_error. Qed.
+
 Definition u_def_check : forall prec, u prec = bpow radix2 (- prec) := fun _ => eq_refl.
 Definition eta_def_check : forall prec emax, eta prec emax = / 2 * bpow radix2 (3 - emax - prec) := fun _ _ => eq_refl.
 Definition rnd_def_check : forall prec emax x, rnd prec emax x = round radix2 (FLT_exp (3 - emax - prec) prec) ZnearestE x := fun _ _ _ => eq_refl.
@@ -63,3 +84,6 @@ Print Assumptions C07_scale_pow2_exact.
 Print Assumptions C07_from_zscore_fl_nan.
 Print Assumptions C07_from_zscore_fl_z_inf.
 Print Assumptions C07_from_zscore_fl_sd_zero.
+Print Assumptions C07_affine_sub_fl_def.
+Print Assumptions C07_affine_sub_fl_value.
+Print Assumptions C07_affine_sub_fl_error.
